@@ -1135,6 +1135,11 @@ func cmdDeterminism(args []string) {
 			for _, r := range res {
 				h := sha256.New()
 				for _, l := range r.Trace {
+					if strings.Contains(l, `"msg"="Starting EventSource"`) {
+						// controller-runtime starts its sources from parallel goroutines; only the order
+						// of these log lines depends on it (handlers are driven by SimKube, kind by kind)
+						continue
+					}
 					h.Write([]byte(l))
 					h.Write([]byte{'\n'})
 				}
